@@ -122,6 +122,7 @@ def run(ctx, quick, broken, janet, scratch):
         broken.append(msg)
         ctx.broken.append(msg)
     b = ctx.obligations("JanetModel.Props.C15", THEOREMS)
+    b = name_failed_declarations(ctx, "JanetModel.Props.C15", b)
     broken.extend(b)
     if not quick:
         ok, log = ctx.leanchecker("JanetModel.Props.C15")
@@ -141,6 +142,40 @@ def run(ctx, quick, broken, janet, scratch):
             broken.append(msg)
             ctx.broken.append(msg)
     return cov
+
+
+def name_failed_declarations(ctx, module, b):
+    """vlib reports a failed `lake build` by its first error line; name the declarations the error positions fall into (e.g. which
+    `skeleton_<function>_ok` / table obligation no longer holds) from the build log and the Lean sources that were built"""
+    import re
+    import vlib.core as vcore
+    if not any("module does not build" in x for x in b):
+        return b
+    logp = os.path.join(ctx.replay_dir, "lake-%s.log" % module)
+    try:
+        log = open(logp).read()
+    except OSError:
+        return b
+    names = []
+    for m in re.finditer(r"error: (\S+?\.lean):(\d+):\d+: ([^\n]*)", log):
+        path, line, msg = m.group(1), int(m.group(2)), m.group(3)
+        try:
+            src = open(os.path.join(vcore.LEAN, path)).read().splitlines()
+        except OSError:
+            continue
+        decl = None
+        for k in range(min(line, len(src)) - 1, -1, -1):
+            mm = re.match(r"^\s*(?:private\s+)?(?:theorem|def|example|abbrev|instance)\s+([\w.']+)?", src[k])
+            if mm:
+                decl = mm.group(1) or "example"
+                break
+        entry = "%s in %s:%d (%s)" % (decl, path, line, msg[:90])
+        if entry not in names:
+            names.append(entry)
+    if names:
+        ctx.broken += ["no longer holds: " + n for n in names]
+        return ["no longer holds: " + n for n in names] + b
+    return b
 
 
 MOVES = {"ldi", "ldc", "ldn", "ldt", "ldf", "lds", "movn", "movf", "ret", "retn"}
